@@ -6,6 +6,7 @@ package rules
 import (
 	"go/token"
 	"math"
+	"sort"
 
 	"golang.org/x/tools/go/ssa"
 
@@ -162,4 +163,80 @@ func (e *c03eng) provePhiSplit(g c03goal, at ssa.Instruction) (c03proof, bool) {
 		}
 	}
 	return c03proof{ok: true, how: "holds for every incoming value of the joined variable (each branch establishes " + g.atom.pretty() + ") in " + core.FuncKey(fn)}, true
+}
+
+func g4c03controls() {
+	control(Control{ID: "c03-g4-argindex-clamp-off-by-one", Prop: "C03", File: "extensions/omniv21/transform/invokeCustomFunc.go",
+		Old: "\tif argIndex >= fnType.NumIn() {", New: "\tif argIndex > fnType.NumIn() {",
+		Rule: "K2", Substr: "getFuncArgType calls reflect.Type.In", Why: "clamp off by one: In(NumIn()) panics for the first surplus argument of a variadic call"})
+}
+
+// ---------------------------------------------------------------- K4: evaluation sites in iterator closures / helpers
+
+func c03lexicalRoot(f *ssa.Function) *ssa.Function {
+	for f != nil && f.Parent() != nil {
+		f = f.Parent()
+	}
+	return f
+}
+
+func c03exportedRepoFunc(f *ssa.Function) bool {
+	if f == nil || f.Parent() != nil || f.Synthetic != "" || f.Object() == nil || !f.Object().Exported() {
+		return false
+	}
+	p := core.FuncPkg(f)
+	return p != nil && core.InRepo(p)
+}
+
+// k4owners: f is a closure or an unexported function all of whose call sites (in the reachable program) lie in
+// exported repository functions (or closures of them): these exported functions, sorted. nil if f is itself an
+// exported function, has no resolvable caller, or has a caller that is not an exported function (then the construct
+// stays keyed by f).
+func (x *c03ctx) k4owners(f *ssa.Function) []*ssa.Function {
+	if c03exportedRepoFunc(f) {
+		return nil
+	}
+	if f.Parent() == nil && (f.Synthetic != "" || f.Object() == nil) {
+		return nil
+	}
+	sites := x.e.callers[f]
+	if len(sites) == 0 {
+		return nil
+	}
+	seen := map[*ssa.Function]bool{}
+	var out []*ssa.Function
+	for _, s := range sites {
+		w := c03lexicalRoot(s.Parent())
+		if !c03exportedRepoFunc(w) {
+			return nil
+		}
+		if !seen[w] {
+			seen[w] = true
+			out = append(out, w)
+		}
+	}
+	sort.Slice(out, func(i, j int) bool { return core.FuncKey(out[i]) < core.FuncKey(out[j]) })
+	return out
+}
+
+// k4unprotectedVia: a panic raised in f propagates through the exported owner w to the public API: f and w are
+// reachable from the entry points without passing a deferred recover, and some call of f inside w (or a closure of
+// w) is not dominated by a deferred recover of the function it sits in.
+func (x *c03ctx) k4unprotectedVia(w, f *ssa.Function) bool {
+	unprot := x.unprotected()
+	if _, un := unprot[f]; !un {
+		return false
+	}
+	if _, un := unprot[w]; !un {
+		return false
+	}
+	for _, s := range x.e.callers[f] {
+		if c03lexicalRoot(s.Parent()) != w {
+			continue
+		}
+		if !c03deferRecoverDominates(s.Parent(), s) {
+			return true
+		}
+	}
+	return false
 }
